@@ -342,7 +342,7 @@ def gen_case(rng, tier):
 
 # ---------------------------------------------------------------- histories (one process, many calls)
 
-IDENT = re.compile(rb"^[a-z][a-zA-Z0-9]*$")
+IDENT = re.compile(rb"[a-z][a-zA-Z0-9]*")
 JS_WORDS = {b"break", b"case", b"catch", b"continue", b"debugger", b"default", b"delete", b"do", b"else", b"finally", b"for",
             b"function", b"if", b"in", b"instanceof", b"new", b"return", b"switch", b"this", b"throw", b"try", b"typeof",
             b"var", b"void", b"while", b"with", b"class", b"const", b"enum", b"export", b"extends", b"import", b"super",
@@ -350,7 +350,7 @@ JS_WORDS = {b"break", b"case", b"catch", b"continue", b"debugger", b"default", b
 
 
 def ident_safe(kb):
-    return bool(IDENT.match(kb)) and kb not in JS_WORDS
+    return bool(IDENT.fullmatch(kb)) and kb not in JS_WORDS
 
 
 def shape_of(v):
@@ -367,8 +367,14 @@ def shape_of(v):
     return ["leaf"]
 
 
+def stable_key(kb):
+    """a key that JSON.parse(JSON.stringify(.)) gives back as it is: Unicode, first byte ASCII and not A-Z, not empty
+    (paths walk through such keys only: a copy of hostile data has other keys than the data)"""
+    return kb != b"" and valid_utf8(kb) and kb[0] < 128 and not (65 <= kb[0] <= 90)
+
+
 def containers(sh, path=(), acc=None, depth=0):
-    """all (path, shape) of containers reachable without walking through the empty key"""
+    """all (path, shape) of containers reachable through stable keys"""
     if acc is None:
         acc = []
     if sh[0] == "leaf" or depth > 6:
@@ -376,7 +382,7 @@ def containers(sh, path=(), acc=None, depth=0):
     acc.append((path, sh))
     if sh[0] == "map":
         for k, x in list(sh[1].items())[:8]:
-            if k != b"":
+            if stable_key(k):
                 containers(x, path + ({"k": hx(k)},), acc, depth + 1)
     else:
         for i, x in list(enumerate(sh[1]))[:8]:
@@ -440,7 +446,7 @@ def gen_op(rng, sh, hostile):
     op = {"p": [dict(s) for s in path], "dot": [rng.random() < 0.5 for _ in path], "nav": rng.random() < 0.4}
     if t[0] == "map":
         op["o"] = "set"
-        keys = list(t[1].keys())
+        keys = [k for k in t[1].keys() if stable_key(k)]
         r = rng.random()
         if keys and r < 0.3:
             k = rng.choice(keys)                     # overwrite a member
@@ -783,21 +789,50 @@ class C12(Prop):
             "arrays/objects nested up to 60 (quick) / 200 (thorough) levels, long arrays, wide objects, nil slices and "
             "maps) plus a hostile stream (upper-case-initial and colliding keys, non-ASCII-initial keys, invalid UTF-8, "
             "integers beyond 2^53, fractions); each rendered through != JSON.stringify(x), != json(x), "
-            "= JSON.stringify(x), a JSON.parse round trip in a template, and the exported functions; "
+            "= JSON.stringify(x), a JSON.parse round trip in a template, and the exported functions. "
+            "About 30% of the cases continue with a HISTORY in the same process (one harness process per such case): "
+            "1-4 segments, each a render of a template written for the case (on one of two engines, a template "
+            "possibly rendered again, the page data the same Go value or an equal one built anew) or a sequence of "
+            "calls of the exported functions by a Go caller whose objects stay alive between segments; a segment "
+            "parses copies of the page data or of earlier copies (JSON.parse(JSON.stringify(u)), JSON.parse of the "
+            "text handed in as a Go string), mutates them - and sometimes the converted page data itself - through "
+            "a.k = v, a[k] = v, push, unshift, pop, shift, splice on receivers at any depth (reached by .name, [key], "
+            "[index], directly or through a variable that aliases the inner object), writes JSON.stringify / json "
+            "of any variable at any point, and ends by parsing the text of the data once more and writing it. "
+            "Every text of a value nothing was done to must be the text of the data byte for byte, every text of a "
+            "mutated copy must read as the mutated JSON tree (decided in Coq from the abstract history). "
             "non-trivial = the value is a container or a string that needs an escape or a number of more than "
-            "9 digits; distinct by SHA-1 of the case")
+            "9 digits; a history case: at least one mutation and two outputs; distinct by SHA-1 of the case")
     trusted = [
         "encoding/json (go1.23 toolchain of the harness) is reproduced by the Gallina printer encode_go and compared "
         "byte for byte on every case; strconv's shortest formatting of an integer-valued float64 below 2^54 is taken "
         "to be its plain decimal digits (checked around +-2^53 and powers of ten by the correspondence)",
         "the Go-side oracle decoded_equal uses encoding/json's own decoder (json.Number, integers compared as text)",
         "unicode.ToLower on a non-ASCII first rune of a key is not modelled: such keys are judged unmodelled",
+        "histories: gen/c12.py writes both the JavaScript of a render segment (js_of_program) and the abstract steps "
+        "HConv/HParse/HMut/HOut the judge sees (coq_steps) from one plan; that the two say the same is trusted, and "
+        "checked indirectly: the heap machine run_data reproduces every text Go wrote for every history "
+        "(zero drift), the api segments execute the abstract steps themselves",
+        "histories: the template statements a.k = v / a[k] = v / var r = a.push(v) ... reach Map.Member(\"__assign\"), "
+        "Array.Push etc. as the engine compiles them; the model has the effect on the object only (Models/JsonHist.v "
+        "obj_act), not the JavaScript-to-template compilation",
+        "histories: output sections are separated by a line feed written by a Text node after every buffered line; "
+        "a JSON text contains no raw line feed (a render whose output does not split into the expected number of "
+        "sections counts as having written nothing)",
     ]
     assumptions = [
         "keys: first byte ASCII and not A-Z (or the empty key), pairwise distinct; text valid UTF-8; integers |n| <= 2^53",
         "nesting depth below 10000: beyond that encoding/json refuses (stringify panics / the render fails, no text "
         "is produced) - observed once by hand at depth 10001, not part of the generated stream",
         "numbers with a fraction are covered by the Go-side oracle only (the Gallina value space has integers)",
+        "histories: keys assigned and values pushed are in the same domain; every mutation fits its receiver "
+        "(steps_fit: a map for an assignment, an array for push/pop/..., splice(n) with n <= length) - a mutation "
+        "that does not fit panics in Go and is not generated; paths walk through keys that survive a round trip only (not empty, Unicode, lower-case-initial ASCII first byte)",
+        "histories: no two variables of a history refer to the same object except a navigation variable "
+        "(var a = y[k]) and its root, which the abstract history treats as one mutation of the root: the model's "
+        "variables hold the roots of disjoint object trees (each value of w is used at one place per render)",
+        "histories: the process is sequential (segments one after the other); concurrent renders are other "
+        "properties' subject",
     ]
     not_yet_proved = []
 
